@@ -257,6 +257,124 @@ func checkFileVia(file []byte, via string, src func() io.ReadSeeker) []oracle.Fa
 	return out
 }
 
+// hugeCounts: counts in the 32-bit range.  A column chunk of an optional
+// int32 column whose pages hold 2^30 nulls each is a few bytes on disk (one
+// RLE run per page), so a chunk with 2^31-1, 2^31 and 3*2^30 values can be
+// listed although it could never be materialised.  The files are built by
+// hand from the thrift definitions (the reference parser is not used: it
+// decodes what it parses); the expectation is the list of headers written.
+type hugePage struct{ n int64 }
+
+var hugeCases = [][]hugePage{
+	{{1<<31 - 1}},
+	{{1 << 30}, {1 << 30}},
+	{{1 << 30}, {1 << 30}, {1 << 30}},
+	{{1<<31 - 1}, {1}, {5}},
+}
+
+func hugeCounts(c *fw.Ctx) {
+	for ci := range hugeCases {
+		if !c.MineKey(fmt.Sprintf("hugecounts|%d", ci)) {
+			continue
+		}
+		c.Eval()
+		c.Distinct(fmt.Sprintf("hugecounts|%d", ci))
+		if fails := hugeCase(ci); len(fails) > 0 {
+			raw, _ := json.Marshal(map[string]interface{}{"huge_counts_case": ci})
+			c.Violate("hugecounts|introspection|"+firstWord(fails[0]), strings.Join(fails, "\n")+fmt.Sprintf("\nhand-built file: one optional int32 column, one chunk, pages of %v values (all null)", hugeCases[ci]), "hugecounts", json.RawMessage(raw))
+		}
+	}
+}
+
+func hugeCase(ci int) []string {
+	pages := hugeCases[ci]
+	{
+		file := []byte("PAR1")
+		var want []*refpq.TS
+		var offs []int
+		var total int64
+		for _, p := range pages {
+			// definition levels: one RLE run of p.n zeros, width 1
+			var lv []byte
+			h := uint64(p.n) << 1
+			for h >= 0x80 {
+				lv = append(lv, byte(h)|0x80)
+				h >>= 7
+			}
+			lv = append(lv, byte(h), 0)
+			body := []byte{byte(len(lv)), 0, 0, 0}
+			body = append(body, lv...)
+			dph := (&refpq.TS{}).Set(1, refpq.VI32(p.n)).Set(2, refpq.VI32(0)).Set(3, refpq.VI32(3)).Set(4, refpq.VI32(3))
+			ph := (&refpq.TS{}).Set(1, refpq.VI32(0)).Set(2, refpq.VI32(int64(len(body)))).Set(3, refpq.VI32(int64(len(body)))).Set(5, refpq.VStruct(dph))
+			offs = append(offs, len(file))
+			file = append(file, refpq.EncodeStruct(ph)...)
+			file = append(file, body...)
+			want = append(want, ph)
+			total += p.n
+		}
+		size := int64(len(file) - 4)
+		cmd := (&refpq.TS{}).Set(1, refpq.VI32(1)).Set(2, refpq.VList(refpq.TI32, []refpq.TVal{refpq.VI32(0), refpq.VI32(3)})).
+			Set(3, refpq.VList(refpq.TBinary, []refpq.TVal{refpq.VStr("v")})).Set(4, refpq.VI32(0)).Set(5, refpq.VI64(total)).
+			Set(6, refpq.VI64(size)).Set(7, refpq.VI64(size)).Set(9, refpq.VI64(4))
+		cc := (&refpq.TS{}).Set(2, refpq.VI64(4)).Set(3, refpq.VStruct(cmd))
+		rg := (&refpq.TS{}).Set(1, refpq.VList(refpq.TStruct, []refpq.TVal{refpq.VStruct(cc)})).Set(2, refpq.VI64(size)).Set(3, refpq.VI64(total))
+		root := (&refpq.TS{}).Set(4, refpq.VStr("root")).Set(5, refpq.VI32(1))
+		leaf := (&refpq.TS{}).Set(1, refpq.VI32(1)).Set(3, refpq.VI32(1)).Set(4, refpq.VStr("v"))
+		fmd := (&refpq.TS{}).Set(1, refpq.VI32(1)).Set(2, refpq.VList(refpq.TStruct, []refpq.TVal{refpq.VStruct(root), refpq.VStruct(leaf)})).
+			Set(3, refpq.VI64(total)).Set(4, refpq.VList(refpq.TStruct, []refpq.TVal{refpq.VStruct(rg)}))
+		foot := refpq.EncodeStruct(fmd)
+		file = append(file, foot...)
+		file = append(file, byte(len(foot)), byte(len(foot)>>8), byte(len(foot)>>16), byte(len(foot)>>24))
+		file = append(file, "PAR1"...)
+		var fails []string
+		pm := fw.Protect(func() {
+			meta, err := parquet.ReadMetaData(bytes.NewReader(file))
+			if err != nil {
+				fails = append(fails, "ReadMetaData failed on a valid file: "+err.Error())
+				return
+			}
+			var diffs []string
+			cmpThrift("FileMetaData", reflect.ValueOf(meta), fmd, &diffs)
+			fails = append(fails, diffs...)
+			hs, err := parquet.PageHeaders(meta, bytes.NewReader(file))
+			if err != nil {
+				fails = append(fails, "PageHeaders failed on a valid file: "+err.Error())
+				return
+			}
+			if len(hs) != len(want) {
+				fails = append(fails, fmt.Sprintf("PageHeaders returned %d headers, the file holds %d pages", len(hs), len(want)))
+			} else {
+				for i := range hs {
+					cmpThrift(fmt.Sprintf("PageHeaders[%d]", i), reflect.ValueOf(&hs[i]), want[i], &fails)
+				}
+			}
+			rem := total
+			for i := range want {
+				got, err := parquet.PageHeadersAtOffset(bytes.NewReader(file), int64(offs[i]), rem)
+				if err != nil {
+					fails = append(fails, fmt.Sprintf("PageHeadersAtOffset from page %d (n=%d): %v", i, rem, err))
+				} else if len(got) != len(want)-i {
+					fails = append(fails, fmt.Sprintf("PageHeadersAtOffset from page %d (n=%d): %d headers returned, %d pages there", i, rem, len(got), len(want)-i))
+				}
+				rem -= pages[i].n
+			}
+		})
+		if pm != "" {
+			fails = append(fails, "panic: "+pm)
+		}
+		return fails
+	}
+}
+
+func firstWord(s string) string {
+	for i, ch := range s {
+		if ch == ' ' || ch == ':' || ch == '[' {
+			return s[:i]
+		}
+	}
+	return s
+}
+
 func judge(t *sut.Target, recs []refpq.Val, batches []int, page int, codec sut.Codec) []oracle.Failure {
 	file, fails := oracle.Run(t, recs, batches, page, codec, oracle.NoScramble)
 	if len(fails) > 0 {
@@ -266,10 +384,20 @@ func judge(t *sut.Target, recs []refpq.Val, batches []int, page int, codec sut.C
 }
 
 func run(c *fw.Ctx) {
+	hugeCounts(c)
 	families.RunAllWith(c, oracle.NoScramble, families.ForC16(c.Thorough()), judge)
 }
 
 func replay(c *fw.Ctx, kind string, data json.RawMessage) string {
+	if kind == "hugecounts" {
+		var hc struct {
+			Case int `json:"huge_counts_case"`
+		}
+		if err := json.Unmarshal(data, &hc); err != nil || hc.Case < 0 || hc.Case >= len(hugeCases) {
+			return "bad case"
+		}
+		return strings.Join(hugeCase(hc.Case), "\n")
+	}
 	var cs oracle.Case
 	if err := json.Unmarshal(data, &cs); err != nil {
 		return "bad case: " + err.Error()
@@ -292,7 +420,7 @@ func Main() {
 		ID:    "C16",
 		Level: "exploration",
 		Rule: "for every file of the exhaustive families (boundary product over record sequences x batch partitions x page sizes x codecs; long runs; structure-exhaustive on nested shapes): ReadMetaData is compared field by field (thrift ids, presence and values) with the reference parser's footer tree; PageHeaders(footer, r) with the independent sequential walk of the file (one header per page, file order, every field); " +
-			"PageHeadersAtOffset(r, off, n) for every chunk start with n = chunk num_values and for every later page start with n = values remaining in the chunk; all three calls through a bytes.Reader and through sources that fragment their reads (1 byte, 3 bytes with data+EOF, 64 bytes). distinct = (family, case tag)",
+			"PageHeadersAtOffset(r, off, n) for every chunk start with n = chunk num_values and for every later page start with n = values remaining in the chunk; all three calls through a bytes.Reader and through sources that fragment their reads (1 byte, 3 bytes with data+EOF, 64 bytes). distinct = (family, case tag). Plus four hand-built files whose single chunk holds 2^31-1 .. 3*2^30 values in pages of up to 2^30 nulls (counts in the 32-bit range), checked against the headers written",
 		Assumptions: []string{
 			"only files written by the library's own writer are inspected (all valid per C02); foreign files are the subject of C04",
 		},
